@@ -20,8 +20,13 @@ AcceptReset == CfgOK(Ev.cfg) /\ Ev.r.k = "unit"
 Step == CASE Ev.ev = "next" -> LET r == ANext(a, cap, SL) IN [ret |-> [k |-> "val", v |-> r.frame], a |-> r.a]
           [] Ev.ev = "next_frames" -> LET r == ANextFrames(a, Ev.a.k, cap, SL) IN [ret |-> [k |-> "items", v |-> r.items], a |-> r.a]
           [] Ev.ev = "is_exhausted" -> [ret |-> [k |-> "val", v |-> IF Exh(a) THEN 1 ELSE 0], a |-> a]
+          \* a batch consumed by internal iteration (fold / for_each / count / last) is the whole batch, removed like one taken by `next`
+          [] Ev.ev \in {"nf_fold", "nf_for_each"} -> LET r == ANextFrames(a, cap + 1, cap, SL) IN [ret |-> [k |-> "items", v |-> r.items], a |-> r.a]
+          [] Ev.ev = "nf_count" -> LET r == ANextFrames(a, cap + 1, cap, SL) IN [ret |-> [k |-> "val", v |-> Len(r.items)], a |-> r.a]
+          [] Ev.ev = "nf_last" -> LET r == ANextFrames(a, cap + 1, cap, SL) IN
+                                  [ret |-> [k |-> "val", v |-> IF Len(r.items) = 0 THEN -1 ELSE r.items[Len(r.items)]], a |-> r.a]
           [] Ev.ev = "clone" -> [ret |-> [k |-> "val", v |-> 0], a |-> a]     \* the clone continues the same stream
-AcceptOp == /\ Ev.ev \in {"next", "next_frames", "is_exhausted", "clone"}
+AcceptOp == /\ Ev.ev \in {"next", "next_frames", "is_exhausted", "clone", "nf_fold", "nf_for_each", "nf_count", "nf_last"}
             /\ Ev.r = Step.ret /\ ObsOK(Ev.o, Step.a)
 HeapOK == Ev.ev = "clone" \/ Ev.h = << 0, 0, 0 >>     \* cloning the owned ring storage allocates by nature
 
